@@ -1,6 +1,7 @@
 // TRUSTED CONTRACTS (DESIGN.md §3.2): specified, not verified. Audited by bounded Kani harnesses (kani/deps).
 pub mod emap {
     use vstd::prelude::*;
+    use vstd::std_specs::iter::IteratorSpec;
     use core::marker::PhantomData;
 
     #[verifier::external_body]
@@ -284,6 +285,56 @@ pub mod emap {
         uninterp spec fn will_return_none(&self) -> bool;
         uninterp spec fn decrease(&self) -> Option<nat>;
         uninterp spec fn peek(&self, i: int) -> Option<(usize, &'a V)>;
+    }
+
+    // ---- itertools `sorted_by_key` as instantiated for this iterator and for its filter (inherent shim methods) ----
+    // A stable sort of items whose keys already ascend is the identity; only that case is specified.
+    impl<'a, V: Clone + 'a> Iter<'a, V> {
+        #[verifier::external_body]
+        pub fn sorted_by_key<K: Ord, F: FnMut(&(usize, &'a V)) -> K>(self, f: F) -> (r: std::vec::IntoIter<(usize, &'a V)>)
+            requires
+                self.pos() == 0,
+                forall|i: int| 0 <= i < self.src().len() ==> (#[trigger] self.src()[i]).is_some(),
+                forall|i: int| 0 <= i < self.src().len() ==> f.requires((&(i as usize, &(#[trigger] self.src()[i]).unwrap()),)),
+            ensures
+                r.obeys_prophetic_iter_laws(),
+                sorted_keys_ascend(self.src(), f) ==> r.remaining().len() == self.src().len()
+                    && forall|i: int| 0 <= i < self.src().len() ==> (#[trigger] r.remaining()[i]).0 == i && Some(*r.remaining()[i].1) == self.src()[i],
+        { unimplemented!() }
+    }
+    /// the keys f assigns to the slots ascend with the slot index
+    pub open spec fn sorted_keys_ascend<'a, V, K, F: FnMut(&(usize, &'a V)) -> K>(src: Seq<Option<V>>, f: F) -> bool {
+        forall|i: int, k: K| 0 <= i < src.len() && #[trigger] f.ensures((&(i as usize, &src[i].unwrap()),), k) ==> key_rank(k) == i
+    }
+    /// position of a key in its order (usize keys: the number itself)
+    pub uninterp spec fn key_rank<K>(k: K) -> int;
+    pub broadcast axiom fn axiom_key_rank_usize(k: usize)
+        ensures #[trigger] key_rank::<usize>(k) == k as int;
+
+    impl<'a, V: Clone + 'a, P: FnMut(&(usize, &'a V)) -> bool> Filter<'a, V, P> {
+        /// the accepted slots in ascending slot order (their usize keys ascend already)
+        #[verifier::external_body]
+        pub fn sorted_by_key<K: Ord, F: FnMut(&(usize, &'a V)) -> K>(self, f: F) -> (r: std::vec::IntoIter<(usize, &'a V)>)
+            requires
+                self.pos() == 0,
+                forall|i: int| 0 <= i < self.src().len() ==> (#[trigger] self.src()[i]).is_some(),
+                forall|i: int| 0 <= i < self.src().len() ==> f.requires((&(i as usize, &(#[trigger] self.src()[i]).unwrap()),)),
+            ensures
+                r.obeys_prophetic_iter_laws(),
+                sorted_keys_ascend(self.src(), f) ==> {
+                    // every item is an accepted slot, with its value
+                    &&& forall|k: int| 0 <= k < r.remaining().len() ==> {
+                        let i = (#[trigger] r.remaining()[k]).0 as int;
+                        &&& 0 <= i < self.src().len() && Some(*r.remaining()[k].1) == self.src()[i]
+                        &&& self.pred().ensures((&(i as usize, &self.src()[i].unwrap()),), true)
+                    }
+                    // in ascending slot order
+                    &&& forall|k: int, l: int| 0 <= k < l < r.remaining().len() ==> (#[trigger] r.remaining()[k]).0 < (#[trigger] r.remaining()[l]).0
+                    // and a slot that is not among the items was rejected
+                    &&& forall|i: int| 0 <= i < self.src().len() && (forall|k: int| 0 <= k < r.remaining().len() ==> (#[trigger] r.remaining()[k]).0 != i) ==>
+                        self.pred().ensures((&(i as usize, &(#[trigger] self.src()[i]).unwrap()),), false)
+                },
+        { unimplemented!() }
     }
     impl<V: Clone> Clone for Map<V> {
         #[verifier::external_body]
